@@ -6,4 +6,4 @@ pat="${1:-.}"
 par="${SELFTEST_PAR:-3}"
 grep -E "$pat" mutants/expect.tsv | while IFS=$'\t' read -r name checks; do
   echo "tools/mutant_run.sh --tests mutants/$name.diff $checks"
-done | xargs -P "$par" -I{} bash -c '{}' 2>&1 | grep -E "^(MUTANT|TESTS)" | sort
+done | xargs -P "$par" -I{} bash -c '{}' 2>&1 | grep --line-buffered -E "^(MUTANT|TESTS)"
